@@ -17,6 +17,48 @@ const BLOCK_SIZE: usize = 64;
 
 const DEFERRED_BLOCK_BATCH_SIZE: usize = 32;
 
+#[cfg(metrics_verif)]
+thread_local! {
+    // Set while a `Block` is being dropped: reclamation is not a step of the replayed schedule.
+    static VERIF_IN_DROP: std::cell::Cell<bool> = std::cell::Cell::new(false);
+}
+
+// Verification hook: marks the point immediately before the shared-memory access `site`.
+#[cfg(metrics_verif)]
+#[inline]
+fn verif_yield(site: u32) {
+    if !VERIF_IN_DROP.try_with(|c| c.get()).unwrap_or(true) {
+        metrics::__verif::yield_point(site);
+    }
+}
+
+// Verification hook: marks one iteration of the wait loop `site`.
+#[cfg(metrics_verif)]
+#[inline]
+fn verif_spin(site: u32) {
+    if !VERIF_IN_DROP.try_with(|c| c.get()).unwrap_or(true) {
+        metrics::__verif::spin_point(site);
+    }
+}
+
+// Verification hook: suppresses the yield points for the lifetime of the guard.
+#[cfg(metrics_verif)]
+struct VerifInDrop(bool);
+
+#[cfg(metrics_verif)]
+impl VerifInDrop {
+    fn enter() -> Self {
+        VerifInDrop(VERIF_IN_DROP.try_with(|c| c.replace(true)).unwrap_or(true))
+    }
+}
+
+#[cfg(metrics_verif)]
+impl Drop for VerifInDrop {
+    fn drop(&mut self) {
+        let _ = VERIF_IN_DROP.try_with(|c| c.set(self.0));
+    }
+}
+
 /// Discrete chunk of values with atomic read/write access.
 struct Block<T> {
     // Write index.
@@ -67,12 +109,16 @@ impl<T> Block<T> {
 
     // Whether or not any write to the next block, if it exists, has completed.
     pub(crate) fn next_has_completed_writes(&self, guard: &Guard) -> bool {
+        #[cfg(metrics_verif)]
+        verif_yield(507);
         let tail = self.next.load(Ordering::Acquire, guard);
         if tail.is_null() {
             return false;
         }
 
         let tail_block = unsafe { tail.deref() };
+        #[cfg(metrics_verif)]
+        verif_yield(508);
         tail_block.has_completed_writes()
     }
 
@@ -91,6 +137,8 @@ impl<T> Block<T> {
 
     // Whether or not this block is currently quieseced i.e. no in-flight writes.
     pub fn is_quiesced(&self) -> bool {
+        #[cfg(metrics_verif)]
+        verif_yield(504);
         let len = self.len();
         if len == BLOCK_SIZE {
             return true;
@@ -98,6 +146,8 @@ impl<T> Block<T> {
 
         // We have to clamp self.write since multiple threads might race on filling the last block,
         // so the value could actually exceed BLOCK_SIZE.
+        #[cfg(metrics_verif)]
+        verif_yield(505);
         min(self.write.load(Ordering::Acquire), BLOCK_SIZE) == len
     }
 
@@ -107,6 +157,8 @@ impl<T> Block<T> {
         // We can always get a pointer to the first slot, but the reference we give back will only
         // be as long as the number of slots written, indicated by `len`.  The value of `len` is
         // only updated once a slot has been fully written, guaranteeing the slot is initialized.
+        #[cfg(metrics_verif)]
+        verif_yield(506);
         let len = self.len();
         unsafe {
             let head = self.slots.get_unchecked(0).as_ptr();
@@ -118,6 +170,8 @@ impl<T> Block<T> {
     pub fn push(&self, value: T) -> Result<(), T> {
         // Try to increment the index.  If we've reached the end of the block, let the bucket know
         // so it can attach another block.
+        #[cfg(metrics_verif)]
+        verif_yield(501);
         let index = self.write.fetch_add(1, Ordering::AcqRel);
         if index >= BLOCK_SIZE {
             return Err(value);
@@ -130,10 +184,14 @@ impl<T> Block<T> {
         //   it, ensuring no uninitialized access.
         unsafe {
             // Update the slot.
+            #[cfg(metrics_verif)]
+            verif_yield(502);
             self.slots.get_unchecked(index).assume_init_ref().get().write(value);
         }
 
         // Scoot our read index forward.
+        #[cfg(metrics_verif)]
+        verif_yield(503);
         self.read.fetch_or(1 << index, Ordering::AcqRel);
 
         Ok(())
@@ -145,6 +203,8 @@ unsafe impl<T: Sync> Sync for Block<T> {}
 
 impl<T> Drop for Block<T> {
     fn drop(&mut self) {
+        #[cfg(metrics_verif)]
+        let _verif_in_drop = VerifInDrop::enter();
         while !self.is_quiesced() {}
 
         // SAFETY:
@@ -207,6 +267,8 @@ impl<T> AtomicBucket<T> {
     /// Checks whether or not this bucket is empty.
     pub fn is_empty(&self) -> bool {
         let guard = &epoch_pin();
+        #[cfg(metrics_verif)]
+        verif_yield(520);
         let tail = self.tail.load(Ordering::Acquire, guard);
         if tail.is_null() {
             return true;
@@ -215,6 +277,8 @@ impl<T> AtomicBucket<T> {
         // We have to check the next block of our tail in case the current tail is simply a fresh
         // block that has not been written to yet.
         let tail_block = unsafe { tail.deref() };
+        #[cfg(metrics_verif)]
+        verif_yield(521);
         !tail_block.has_completed_writes() && !tail_block.next_has_completed_writes(guard)
     }
 
@@ -224,9 +288,13 @@ impl<T> AtomicBucket<T> {
         let guard = &epoch_pin();
         loop {
             // Load the tail block, or install a new one.
+            #[cfg(metrics_verif)]
+            verif_yield(510);
             let mut tail = self.tail.load(Ordering::Acquire, guard);
             if tail.is_null() {
                 // No blocks at all yet.  We need to create one.
+                #[cfg(metrics_verif)]
+                verif_yield(511);
                 match self.tail.compare_exchange(
                     Shared::null(),
                     Owned::new(Block::new()),
@@ -255,6 +323,8 @@ impl<T> AtomicBucket<T> {
                     let new_block = Owned::new(Block::new());
                     new_block.next.store(tail, Ordering::Release);
 
+                    #[cfg(metrics_verif)]
+                    verif_yield(512);
                     match self.tail.compare_exchange(
                         tail,
                         new_block,
@@ -316,6 +386,8 @@ impl<T> AtomicBucket<T> {
 
         // While we have a valid block -- either `tail` or the next block as we keep reading -- we
         // load the data from each block and process it by calling `f`.
+        #[cfg(metrics_verif)]
+        verif_yield(530);
         let mut block_ptr = self.tail.load(Ordering::Acquire, guard);
         while !block_ptr.is_null() {
             let block = unsafe { block_ptr.deref() };
@@ -324,6 +396,8 @@ impl<T> AtomicBucket<T> {
             // snoozing specifically yields the reading thread to ensure things are given a
             // chance to complete.
             while !block.is_quiesced() {
+                #[cfg(metrics_verif)]
+                verif_spin(531);
                 backoff.snooze();
             }
 
@@ -332,6 +406,8 @@ impl<T> AtomicBucket<T> {
             f(data);
 
             // Load the next block.
+            #[cfg(metrics_verif)]
+            verif_yield(532);
             block_ptr = block.next.load(Ordering::Acquire, guard);
         }
     }
@@ -371,7 +447,13 @@ impl<T> AtomicBucket<T> {
         // still be in process of writing to the tail node, or reading the data, but new callers
         // will see it as empty until another write proceeds.
         let guard = &epoch_pin();
+        #[cfg(metrics_verif)]
+        verif_yield(540);
         let mut block_ptr = self.tail.load(Ordering::Acquire, guard);
+        #[cfg(metrics_verif)]
+        if !block_ptr.is_null() {
+            verif_yield(541);
+        }
         if !block_ptr.is_null()
             && self
                 .tail
@@ -396,6 +478,8 @@ impl<T> AtomicBucket<T> {
                 // snoozing specifically yields the reading thread to ensure things are given a
                 // chance to complete.
                 while !block.is_quiesced() {
+                    #[cfg(metrics_verif)]
+                    verif_spin(542);
                     backoff.snooze();
                 }
 
@@ -404,6 +488,8 @@ impl<T> AtomicBucket<T> {
                 f(data);
 
                 // Load the next block and take the shared reference to the current.
+                #[cfg(metrics_verif)]
+                verif_yield(543);
                 let old_block_ptr =
                     mem::replace(&mut block_ptr, block.next.load(Ordering::Acquire, guard));
 
